@@ -155,12 +155,12 @@ def genC12Cases (tier : String) (seed : Nat) : Array Case := Id.run do
               break
           pure best
         (s2, if hasNestedMulti s2 then "C12-wand-inside-combination-dynamic-output" else "")
-      else (s, "")
+      else (s, if wandBelowRoot s then "C12-wand-inside-combination-dynamic-output" else "")
     if rowBound s > 512 then continue
     let text := String.ofList (renderS s)
     let (v, r2) := below 128 rng
     rng := r2
-    let v := if kf ≠ "" then 28 + (v / 32) * 32 else v     -- dynamic output on
+    let v := if kf ≠ "" && i % 25 = 24 then 28 + (v / 32) * 32 else v     -- dynamic output on
     let a := (convArgs text v).setObjVal! "reps" (5 : Nat) |>.setObjVal! "fresh3" (i % 5 == 0 : Bool)
     out := out.push { id := s!"c12-{i}", op := "conv", args := a, tag := if kf ≠ "" then "wAND-inside-combination" else if i % 5 = 0 then "5-reps+3-processes" else "5-reps",
                       note := Json.mkObj [("kf", (kf : Json))] }
